@@ -48,6 +48,16 @@ func (s *sampler) classPick(e *Expr) rune {
 		lo, hi := e.Ranges[i], e.Ranges[i+1]
 		if lo <= hi {
 			cands = append(cands, lo, hi, lo+(hi-lo)/2)
+			// the runes of the alphabet inside the range, and for a letter its other case (a
+			// member or a near miss, depending on where the range ends)
+			for _, a := range s.alpha {
+				if lo <= a && a <= hi && a != lo && a != hi {
+					cands = append(cands, a)
+					if f := flipCase(a); f != a {
+						cands = append(cands, f)
+					}
+				}
+			}
 		}
 	}
 	for _, u := range e.UClasses {
